@@ -98,6 +98,14 @@ func init() {
 			RealStub: "real: cmd (cobra root command), configuration loading via viper from generated YAML, Validate, internal.RunDaemon incl. actor group and signal actor, hwmon discovery, controllers, monitors, persistence; stub/model: libsensors (stand-in), drivers/fans/temperatures (world), clock (synctest), scheduling at seams (kernel), OS signal delivery (hook), TCP servers disabled",
 		},
 		PropertyPlan{
+			ID: "C09", Level: "fault_enumeration",
+			Families: []FamilyPlan{{Name: "c09", Quick: 352, Thorough: 3519, Chunk: 4, SeedTimeout: 150 * time.Second, DeathProperty: "C09"}, {Name: "c09pairs", Quick: 64, Thorough: 2500, Chunk: 4, SeedTimeout: 150 * time.Second, DeathProperty: "C09"}},
+			Rule:     "fixed enumeration of 3519 single faults = for each of the 27 combinations fan backend (hwmon/file/cmd) x sensor backend (hwmon/file/cmd) x curve type (linear, PID, function nested over linear+PID): component (sensor read by monitor / by curve evaluation / first read; fan PWM read at start-up, in the cycle, in the RPM monitor; RPM read; PWM write; mode write/read; get/set/rpm commands) x kind (EIO, missing, empty, garbage, huge; write error, EINVAL, ignored; command exit!=0 with/without output, garbage, nan, empty, timeout, not executable, bad format, vanished, killed) x position (1st, 2nd, a later occurrence). Each fault is injected into the real daemon (own process, 12 virtual s, second bystander fan). quick covers a window of the enumeration selected by VERIF_SEED, thorough covers all 3519 singles; pairs are sampled. Oracle: no Go panic / unrequested exit without restore; every fan still regulated at the end or stopped and restored. distinct = scenario hash; non-trivial = the planned fault actually fired",
+			Probes:   []string{"faults-fired", "fan-still-regulated"},
+			Assume:   []string{"an orderly shutdown of the whole daemon that restores every fan counts as 'stops regulating after restoring' (weaker reading)", "thorough: exhaustive over the listed single-fault space only"},
+			RealStub: "real: cmd (cobra root command), YAML loading, Validate, RunDaemon actor group, hwmon discovery, controllers, monitors, curves, sensors, fans, persistence, util.SafeCmdExecution with real child processes; stub/model: libsensors stand-in, drivers/fans/temperatures (world), clock (synctest), scheduling at seams (kernel); EIO/EINVAL/timeout are returned by the seam, all other faults are produced on the real file or script",
+		},
+		PropertyPlan{
 			ID: "C12", Level: "exploration",
 			Families: []FamilyPlan{{Name: "c12", Quick: 240, Thorough: 8000, Chunk: 10}},
 			Rule:     "each run = closed loop with full-range fans (min 0, max 255) and the direct algorithm, where the request equals the curve value; maps from the configuration (sparse, plateaus) or from the real sweep against a quantising driver; every cycle compares the write (or the decision not to write) with the reference nearest-supported-input computation. distinct = scenario hash; non-trivial = at least one write judged",
